@@ -427,7 +427,7 @@ def monitor_todos(c, tr):
                 if mw <= last_now and t > 0 and False:
                     return "Step polls although a ToDo is due"
         elif k == 20:
-            opc, ok = a[0], a[1]
+            opc, ok = a[0], (1 if a[1] == 1 else 0)
             if opc == 40 and ok:
                 driver = True
             elif opc == 44:
@@ -530,7 +530,7 @@ def monitor_async(c, tr):
 
     for idx, (k, a) in enumerate(tr):
         if k == 20:
-            opc, ok = a[0], a[1]
+            opc, ok = a[0], (1 if a[1] == 1 else 0)
             if expect and opc in (41, 42) and ok:
                 return "after %s the handler of socket %d was not invoked" % (expect[1], expect[0])
             expect = None
